@@ -310,9 +310,13 @@ fn check_cli(ctx: &mut ShardCtx, spec: &ProgSpec, builds: &[Build]) -> Outcome {
             let lib = match isolated_library(&src, &filename) {
                 Ok(x) => x,
                 Err(c) => {
-                    if is_arena_exhaustion(&c) || c == "timeout" {
+                    if is_arena_exhaustion(&c) {
+                        // deterministic: the program needs more memory than the arenas hold
+                        return Outcome::Discard("U8 arena exhaustion (program outside the compared domain)");
+                    }
+                    if c == "timeout" {
                         ctx.inconclusive += 1;
-                        return Outcome::Discard("U8 arena exhaustion / watchdog");
+                        return Outcome::Discard("watchdog");
                     }
                     // library crash is C06/C07's matter; here only report if the CLI does NOT crash alike
                     return Outcome::Discard("library pipeline crashed (see C06/C07)");
@@ -444,9 +448,12 @@ fn check_history(ctx: &mut ShardCtx, progs: &[ProgSpec], order: &[usize]) -> Out
         match playground_results(std::slice::from_ref(s)) {
             Ok(r) => alone.push(Some(r[0].clone())),
             Err(c) => {
-                if is_arena_exhaustion(&c) || c.starts_with("timeout") {
+                if is_arena_exhaustion(&c) {
+                    return Outcome::Discard("U8 program alone exhausts the 16 MiB playground arenas (outside the compared domain)");
+                }
+                if c.starts_with("timeout") {
                     ctx.inconclusive += 1;
-                    return Outcome::Discard("U8 arena exhaustion / watchdog (16 MiB playground arenas)");
+                    return Outcome::Discard("watchdog");
                 }
                 return Outcome::Discard("program crashes on its own (see C06/C07)");
             }
@@ -456,9 +463,18 @@ fn check_history(ctx: &mut ShardCtx, progs: &[ProgSpec], order: &[usize]) -> Out
     let got = match playground_results(&seq) {
         Ok(g) => g,
         Err(c) => {
-            if is_arena_exhaustion(&c) || c.starts_with("timeout") {
+            if c.starts_with("timeout") {
                 ctx.inconclusive += 1;
-                return Outcome::Discard("U8 arena exhaustion / watchdog");
+                return Outcome::Discard("watchdog");
+            }
+            if is_arena_exhaustion(&c) {
+                // every program fits alone; memory that is not given back between runs is exactly
+                // an influence of the history
+                return Outcome::Fail(Failure {
+                    sig: "history-exhausts-arena".into(),
+                    what: format!("every program runs alone within the 16 MiB playground arenas, but the history ran out of arena memory: {c}"),
+                    input,
+                });
             }
             return Outcome::Fail(Failure {
                 sig: format!("history-crash|{}", isolate::normalise_panic(&c)),
@@ -522,7 +538,7 @@ impl Check for C14 {
     fn assumptions(&self) -> Vec<String> {
         vec![
             "programs do not call read_line or command".into(),
-            "the playground uses 16 MiB scratch arenas; programs that exhaust them are inconclusive".into(),
+            "the playground uses 16 MiB scratch arenas; a program that exhausts them when run alone is outside the compared domain (counted as discarded); a history of programs that each fit alone must fit as well".into(),
             "programs that crash on their own are C06/C07's matter and are skipped here".into(),
         ]
     }
